@@ -26,7 +26,7 @@ var validatorSwitches = map[string]string{
 // sendConds: the union of the branch conditions that decide whether fn reports a validation result (sends on its result channel).
 func sendConds(fn *ssa.Function) []ssa.Value {
 	var out []ssa.Value
-	for _, b := range fn.Blocks {
+	for _, b := range core.Blocks(fn) {
 		for _, in := range b.Instrs {
 			if s, ok := in.(*ssa.Send); ok {
 				out = append(out, core.ControlConds(s)...)
@@ -80,7 +80,7 @@ func c04(w *core.World, r *core.Report) {
 			fieldsT, _ = nt.Underlying().(*types.Struct)
 		}
 		read := map[string]bool{}
-		for _, b := range validate.Blocks {
+		for _, b := range core.Blocks(validate) {
 			for _, in := range b.Instrs {
 				if fk := core.FieldOf(valueOf(in)); strings.HasPrefix(fk, "config.Validators.") {
 					read[strings.TrimPrefix(fk, "config.Validators.")] = true
@@ -129,7 +129,7 @@ func c04(w *core.World, r *core.Report) {
 	r.Rule("ALL-CHILDREN", 3, "Validate recurses into EVERY active child: every path through the body of the range over filterActiveChoiceCaseChilds() reaches the recursive validation (called directly or as a goroutine) before the next iteration; the closure validates the child it was given; the recursion does not depend on anything but the loop.")
 	{
 		var next *ssa.Next
-		for _, b := range validate.Blocks {
+		for _, b := range core.Blocks(validate) {
 			for _, in := range b.Instrs {
 				if n, ok := in.(*ssa.Next); ok {
 					if rg, ok := n.Iter.(*ssa.Range); ok {
@@ -324,7 +324,7 @@ func c04(w *core.World, r *core.Report) {
 			r.Check(!dep, "INDEPENDENCE", core.Site(f, "max-elements test independent of min-elements"), w.InstrPos(iff), "max-elements must be enforced whether or not min-elements is set")
 		}
 		r.Check(nMax > 0, "INDEPENDENCE", core.Site(f, "max-elements tested"), w.Pos(f.Pos()), "no branch depends on max-elements only")
-		for _, b := range f.Blocks {
+		for _, b := range core.Blocks(f) {
 			for _, in := range b.Instrs {
 				if cv, ok := in.(*ssa.Convert); ok {
 					if lossy, why := lossyConvert(cv.X.Type(), cv.Type()); lossy && numericValueSource(cv.X) != "" {
